@@ -318,6 +318,29 @@ func run(lab *atlab.XALab, t *trace.T, sc scenario, r rnd) (refused bool) {
 		lab.Coord.BranchCommit(lab.Sess, curXid, curBid, branch.BranchTypeXA, lab.RID, nil, 8*time.Second)
 		curXid, curBid = xid, bid
 	}
+	if sc.Reuse == 3 {
+		// the pooled connection has rolled a branch back in phase one before: its business statement failed
+		curXid, curBid = xidFor("", r), 1+r.Int63()%(1<<40)
+		preXid, preBid := curXid, curBid
+		registeredPre := false
+		_ = tm.WithGlobalTx(context.Background(), &tm.GtxConfig{Name: "xab-prefail", Timeout: 30 * time.Second}, func(ctx context.Context) error {
+			lab.Srv.AddFault(memsql.Fault{Nth: 2})
+			e, p := call(ctx, lab.DB, scenario{Kind: "upd", Mode: "auto"})
+			lab.Srv.ClearFaults()
+			registeredPre = true
+			if p != nil {
+				return fmt.Errorf("panic: %v", p)
+			}
+			if e == nil {
+				return errors.New("rolled back on purpose")
+			}
+			return e
+		})
+		if registeredPre {
+			lab.Coord.BranchRollback(lab.Sess, preXid, preBid, branch.BranchTypeXA, lab.RID, nil, 8*time.Second)
+		}
+		curXid, curBid = xid, bid
+	}
 	snapBefore := lab.Srv.SnapshotHash("acct")
 
 	detach := verAtLeast829(sc.Ver)
